@@ -429,7 +429,50 @@ def op_chain(rng, chinfo, dtype):
     return c
 
 
-OPS = [op_chain, op_tensordot, op_outer, op_inner, op_trace, op_transpose, op_conj, op_lincomb, op_combine_split, op_take_slice,
+def op_multi_combine_split(rng, chinfo, dtype):
+    """several pipes at once, then all of them split again - for tensors with random entries, one stored block, no stored block"""
+    import tenpy.linalg.np_conserved as npc
+    rank = int(rng.integers(3, 6))
+    legs = _legs(rng, chinfo, rank, max_size=2)
+    labels = _labels(rank, 'l')
+    order = [int(x) for x in rng.permutation(rank)]
+    cut = int(rng.integers(1, rank - 1)) if rank > 2 else 1
+    groups = [g for g in (order[:cut], order[cut:cut + 2]) if g]
+    fill = ['random', 'zeros', 'one-block'][int(rng.integers(0, 3))]
+    if fill == 'zeros':
+        a = gen.note_operand(npc.zeros(legs, dtype=dtype, labels=labels))
+    else:
+        a = gen.random_array(rng, legs, dtype, labels=labels)
+        if fill == 'one-block' and len(a._data) > 1:
+            b = a.copy(deep=True)             # (truncate a copy: the drawn operand itself is watched by the C03 harness)
+            b._data, b._qdata = b._data[:1], b._qdata[:1]
+            a = gen.note_operand(b)
+    c = a.combine_legs([[labels[i] for i in g] for g in groups])
+    names = []
+    for lbl in c.get_leg_labels():
+        names.extend(lbl.strip('()').split('.'))
+    back = c.split_legs()
+    ref = a.to_ndarray().transpose([labels.index(n) for n in names])
+    case = Case(f'combine_legs(several pipes)+split_legs[{fill}]', [a], back, ref, names, a.qtotal.copy())
+    return case
+
+
+def op_gauge_total_charge(rng, chinfo, dtype):
+    """move total charge into a leg (optionally flipping its direction): same entries, new qtotal, consistent charges"""
+    rk = int(rng.integers(1, 4))
+    a = gen.random_array(rng, _legs(rng, chinfo, rk), dtype, labels=_labels(rk))
+    ax = int(rng.integers(0, rk))
+    newq = chinfo.make_valid(rng.integers(-2, 3, size=chinfo.qnumber))
+    new_qconj = [None, 1, -1][int(rng.integers(0, 3))]
+    r = a.gauge_total_charge(ax, newq, new_qconj)
+    c = Case(f'gauge_total_charge(new_qconj={new_qconj})', [a], r, a.to_ndarray(), _labels(rk), newq)
+    if new_qconj is not None and r.legs[ax].qconj != new_qconj:
+        c.note = 'qconj'
+        c.expected = None
+    return c
+
+
+OPS = [op_chain, op_multi_combine_split, op_gauge_total_charge, op_tensordot, op_outer, op_inner, op_trace, op_transpose, op_conj, op_lincomb, op_combine_split, op_take_slice,
        op_getitem, op_getitem_oob, op_setitem, op_slice_getitem, op_setitem_slices, op_concatenate, op_scale_axis, op_permute,
        op_sort_legcharge, op_squeeze_addleg, op_norm, op_binary_scalar]
 
